@@ -43,6 +43,46 @@ P = {
   "Enumeration per header encoder: hostile constants, every truncation and 14 (quick) / 255 (thorough) single-byte corruptions per position of 8 valid request frames against a real Server and of 4 valid response frames against a real Conn with pending calls and an open stream, all 256 upgrade bytes x method kinds x stream states, and a disconnect after every prefix of a 12-request burst in every non-poll mode; plus rapid-generated mutated/random frame sequences and random bursts. The worker process is the crash detector: the driver reads the case journal of a dead worker, confirms the case in a fresh process and shrinks it; in-process oracle: probes on the same (if it survived) and on another connection are answered correctly.",
   "Trusted: frame level only (length-prefix framing is the dependency hslam/socket); non-poll server modes.",
   "exhaustive fault enumeration + rapid-generated hostile sequences in crash-isolated worker processes; native go fuzz in thorough"),
+ "C03": ("fault_enumeration",
+  "The connection (real Conn <-> real Server over an in-memory byte link under the library's own framing) is cut at every byte offset of the recorded transcript of 3 fixed workloads x 4 header encoders, in both directions, as orderly close and as I/O error, and closed locally / by the server after every number of delivered responses; generated workloads add sizes, read chunks and drawn offsets. Oracle: nobody hangs (10 s), orderly end => ErrShutdown, later call => ErrShutdown within 2 s, successful calls carry their own reply, and every call whose response frame lies completely within the bytes the client had read succeeds (frame boundaries parsed from the transcript).",
+  "Trusted: in-memory byte link (a cut severs both directions), transcript parser, reference decoder. For local Conn.Close the 'completely received' clause is not asserted.",
+  "exhaustive crash-point enumeration over byte offsets + rapid-generated workloads, transcript-derived oracle"),
+ "C09": ("exploration",
+  "Generated multi-stream sessions (1-4 streams, handler behaviours echo / push-first / push-only / read-only, 0-30 messages each way up to 66 KB, interleaved unary calls and pings) over a frame link whose server-to-client direction is held and released immediately, as bursts right behind the open acknowledgement, or one frame at a time. Oracle: per stream and direction the sequence read equals the sequence written; no empty, foreign, duplicate or extra message; unary replies are the caller's own.",
+  "Trusted: frame link (never reorders), per-message identity (stream, direction, index). Loss = not arrived after 15 s, must reproduce in isolation.",
+  "property-based testing (rapid) with harness-owned delivery schedule and sequence-equality oracle"),
+ "C10": ("fault_enumeration",
+  "Every event (client Stream.Close, Conn.Close, peer close, cut with EOF / I/O error, Server.Close) x link (frame link, byte link, real unix sockets without and with poll) x block pattern x direct IO x pipelining is enumerated on a fixed two-stream shape with a gated unary call, plus generated shapes. Oracle: blocked client reads and the server handlers' blocked reads return ErrStreamShutdown within 10 s, later operations on both ends return it within 2 s, handler exit is logged; after a single Stream.Close siblings still echo and the executing unary call completes with its own reply.",
+  "Trusted: handler-side 'blocked in Read' marker; bounds 10 s / 2 s under rule T. Poll mode runs over real unix sockets in the per-run build directory.",
+  "exhaustive event x mode enumeration + rapid-generated shapes, bounded-time unblocking oracle"),
+ "C13": ("exploration",
+  "Generated histories (calls of every form, bursts of concurrent callers, sleeps, CloseIdleConnections, kill/restart, long calls, streams) against a real Transport over a counting in-memory network with a 2 ms housekeeping tick; limits drawn incl. non-positive and idle > max. The invariant is evaluated inside the network's dial hook - the only moment the count can grow - and by a 50 us sampler: open client connections per address <= effective MaxConnsPerHost; from KeepAlive+3 ticks after the last use every open connection is idle and the count is sampled against the effective MaxIdleConnsPerHost.",
+  "Trusted: counting network (dial +1, client close -1); verif hook only shortens the tick. The clamp of the idle limit is not separately observable (total <= max already bounds it).",
+  "model-based property testing (rapid operation lists) with an invariant checked at every dial"),
+ "C14": ("exploration",
+  "Generated histories of a sequential synchronous caller through a real Transport to 2-4 servers with separate execution logs, kill/restart, call spacings drawn around KeepAlive and IdleConnTimeout, background async load. Oracle: calls execute only on the requested address's server; since a kill at most one ErrShutdown per connection pooled at the kill (a failed connection is never handed out again); ErrDial within 2 s while down; success after at most that many failures once the server is back, also checked by recovery probes after the history.",
+  "Trusted: per-server execution logs, counting network. Recovery bound asserted for synchronous forms only.",
+  "model-based property testing (rapid operation lists) with a per-address failure budget model"),
+ "C15": ("exploration",
+  "Generated histories with long (gated) calls and open echo streams spanning sleeps of 1-30 ticks and CloseIdleConnections, KeepAlive/IdleConnTimeout from 1 tick. Oracle: every long call returns its own reply, every stream still echoes (busy connections are never closed by housekeeping); after the last use all connections are closed within KeepAlive+IdleConnTimeout+5 ticks; Transport.Close closes every pooled connection within 2 s and the housekeeping goroutine disappears (goroutine-profile diff).",
+  "Trusted: counting network, goroutine probe (created-by frame in github.com/hslam). The ~100 ns window between getConn and call registration is sampled only.",
+  "model-based property testing (rapid operation lists), survival + bounded reclamation oracle"),
+ "C16": ("exploration",
+  "Generated Update / health histories racing 1-4 spinning callers through a real Client over a scripted fake RoundTripper, all three policies, Director none / empty / constant. Every Update is stamped (t_call, t_return) and every routed call carries its start time. Oracle: address == Director's constant, or address in a target list that was current at some moment between the call's start and its arrival at the transport.",
+  "Trusted: fake RoundTripper, wall-clock stamps (interval semantics make the oracle insensitive to scheduling delays). Detector probes (Ping) excluded.",
+  "property-based testing (rapid) with interval-stamped routing oracle over a fake transport"),
+ "C17": ("exploration",
+  "Generated stable target sets (2-6, optionally listed with duplicates/empty strings), scripted latencies with step changes and outages, Alpha in {0,0.2,0.8,1}, Tick in {1 ns, 30 ms, 1 h}, sequential caller. Oracle: rotation windows of n distinct targets (RoundRobin; LeastTime when every call probes), Random within the list, and for LeastTime an interval-arithmetic model of the documented EWMA fed with durations measured in the fake transport: no call to a target whose estimate interval lies strictly above another's (Tick 1 h), probes at most one per Tick (30 ms).",
+  "Trusted: fake RoundTripper durations as lower bound, +max(2 ms, 50%) as upper bound of the client-measured duration; estimates are not read (no hook).",
+  "property-based testing (rapid) against an interval-arithmetic reference model of the scheduler"),
+ "C18": ("exploration",
+  "Generated scenarios (never-up targets with 1-12 waiting callers and a target coming up or not; Client.Close while waiting; failover of a refusing target under continuous timed calls incl. down-up-down; Fallback pauses) over a scripted fake RoundTripper, DialTimeout 150/400/1000 ms. Oracle: release within 100 ms + 250 ms of a target becoming live, timeout within [DialTimeout-5 ms, +500 ms] with ErrTimeout / any error per call form, release within 500 ms of Close with ErrShutdown / any error and immediate failure afterwards, no routing to a refusing target later than 350 ms after its first ErrDial, reuse after recovery, no routing during Fallback.",
+  "Trusted: fake RoundTripper; all bounds wall-clock under rule T; only clauses that hold under every reading of 'live' are asserted.",
+  "property-based testing (rapid) of scripted fault scenarios with bounded-time oracles"),
+ "C20": ("exploration",
+  "Generated worlds (1-3 non-poll Servers, Conns with gated calls in flight and blocked stream readers, a Transport with gated calls and an idle pooled connection, a Client with a down target, waiting callers and the target recovering 0-101 ms before Client.Close) closed 1-3 times each in a drawn permutation or concurrently. Oracle: Close return values, Listen returns, every caller blocked in the library returns, 0 open endpoints on both sides of the counting network and no library-started goroutine left (goroutine-profile diff) within 10 s.",
+  "Trusted: counting network, goroutine probe. Poll servers excluded by the statement.",
+  "property-based testing (rapid) with resource-leak oracle (endpoint counter + goroutine diff)"),
 }
 
 NOT_BUILT_REASON = "check not built yet in this session; see DESIGN.md section 6 for the planned generated check"
